@@ -19,6 +19,11 @@ table = ['| seeded change (directory under /verif/seeded) | property | what it n
 s = open('/verif/DESIGN.md').read()
 i = s.index('## 12. Seeded changes')
 head = s[:i]
+# section 13 (written by tools/muttable.py) follows this one and is kept
+tail13 = ''
+if '## 13. Mutation analysis' in s:
+    j = s.index('## 13. Mutation analysis')
+    tail13 = '\n---------------------------------------------------------------------------\n\n' + s[j:]
 body = '''## 12. Seeded changes: which check catches which
 
 Each change below was written by a fresh sub-agent that saw only the text of
@@ -188,5 +193,5 @@ change is undone. Results of the last run (`seeded/planned/results.json`):
 | change | property | what | result |
 |---|---|---|---|
 ''' + '\n'.join(rows2) + '\n'
-open('/verif/DESIGN.md', 'w').write(head + body)
+open('/verif/DESIGN.md', 'w').write(head + body + tail13)
 print(len(rows), 'rows')
